@@ -359,6 +359,12 @@ ExprOps(forms, all) ==
             \cup {Op("phased_x", <<0>>, <<e, Lit(1)>>, f) : e \in AngleExprs, f \in forms}
             \cup {Op("phased_x", <<1>>, <<Lit(2), e>>, f) : e \in AngleExprs, f \in forms}
           ELSE {})
+\* every angle expression once, on one of the three slots (which one: a fixed function of the
+\* expression, so that both angle paths see every kind of expression)
+ExprOpsOnce ==
+    {Op("rz", <<0>>, <<e>>, "p") : e \in {x \in AngleExprs : (Quarter(x) + Len(x)) % 3 = 0}}
+    \cup {Op("crz", <<1, 0>>, <<e>>, "p") : e \in {x \in AngleExprs : (Quarter(x) + Len(x)) % 3 = 1}}
+    \cup {Op("qrz", <<1>>, <<e>>, "p") : e \in {x \in AngleExprs : (Quarter(x) + Len(x)) % 3 = 2}}
 
 MeasOps(forms) == {MOp(g, q, f, b) : g \in MeasNames, q \in Qubits, f \in forms, b \in {0, 1}}
 
